@@ -73,6 +73,7 @@ class State:
         self.try_depth = 0
         self.havocked_fields = set()
         self.defs_assumed = set()
+        self.rebound = set()
 
     def fork(self) -> "State":
         s = State()
@@ -87,6 +88,7 @@ class State:
         s.try_depth = self.try_depth
         s.havocked_fields = set(self.havocked_fields)
         s.defs_assumed = set(self.defs_assumed)
+        s.rebound = set(self.rebound)
         return s
 
     def assume(self, fact):
@@ -606,6 +608,8 @@ class Engine:
         if name in ("True", "False"):
             return SV(BOOL, z3.BoolVal(name == "True"))
         # nested def in the current function
+        if name == "logger":
+            return SV(Ty("func"), None, tag=("builtin", "logger"))
         nested = getattr(self, "nested_defs", {})
         if name in nested:
             return SV(Ty("func"), None, tag=("nested", name))
@@ -734,7 +738,7 @@ class Engine:
                 if attr in STR_METHODS:
                     return SV(Ty("func"), None, tag=("bound", recv, attr))
                 raise
-        if recv.ty.kind in ("str", "seq", "dict", "set", "tuple", "small"):
+        if recv.ty.kind in ("str", "seq", "dict", "set", "tuple", "small", "dictcomp"):
             return SV(Ty("func"), None, tag=("bound", recv, attr, node.value if node is not None else None))
         raise Unsupported(f"attribute {attr} on {recv.ty}")
 
@@ -1073,6 +1077,19 @@ class Engine:
     def ev_GeneratorExp(self, n, st):
         return self.comprehension(n, st, "gen")
 
+    def ev_DictComp(self, n, st):
+        """{key(x): val(x) for x in xs}: modelled for the de-duplication idiom (value is the element itself):
+        the values() view is an unspecified-length sequence u with ghost maps -- E-DICT-DEDUPE:
+        every u[j] is xs[wit j]; every xs[i] has a representative u[rep i] with the same key; keys of u are pairwise
+        distinct; the kept element for a key is the LAST input with that key (last writer wins)."""
+        if len(n.generators) != 1 or n.generators[0].ifs:
+            raise Unsupported("dict comprehension shape")
+        g = n.generators[0]
+        src = self.as_seq(st, self.ev(g.iter, st))
+        if not (isinstance(n.value, ast.Name) and isinstance(g.target, ast.Name) and n.value.id == g.target.id):
+            raise Unsupported("dict comprehension whose value is not the element")
+        return SV(Ty("dictcomp"), (src, g.target.id, n.key))
+
     def ev_SetComp(self, n, st):
         return self.comprehension(n, st, "set")
 
@@ -1407,6 +1424,8 @@ class Engine:
         outs = self.flush_raises(st)
         for t in s.targets:
             self.assign(t, val, st)
+            if isinstance(t, ast.Name):
+                st.rebound.add(t.id)      # a plain assignment rebinds the name (it does not mutate the old object)
         outs += self.flush_raises(st)
         if len(s.targets) > 1 and val.ty.kind in ("seq", "dict", "set"):
             st.links.append([self.lvalue_key(t, st) for t in s.targets])
